@@ -687,6 +687,7 @@ struct SigObj
   bool everFwd = false;
   int lvl = 0; // forwarding level (recursion guard of the op language)
   void* up = nullptr; // trackable flavours: a private upstream signal holding this->make_slot() (see attach_up)
+  bool dying = false; // the signal object is being destroyed (destroy_signal_object)
   bool owned = false; // a functor family owns the object (ownG); the name is only an alias
   int name = -1;
   std::weak_ptr<OwnedSig> owner;
@@ -735,8 +736,12 @@ auto with_sig(SigObj& g, Fn fn)
 // trackable part of a trackable_signal dies before its slot list), so the emission reaches nothing.
 static thread_local std::vector<void*> g_dying_ups; // (SigV* or SigI*, tagged by the low bit of the vector below)
 static thread_local std::vector<bool> g_dying_void;
+void query_all_signals(); // (defined after Interp)
 inline void emit_dying_ups()
 {
+  // and the other half of the "last will": the destructor looks at every signal object of the program (size(), empty(),
+  // blocked() — results ignored): whatever the library is in the middle of, its slot lists must be walkable
+  query_all_signals();
   for (std::size_t i = 0; i < g_dying_ups.size(); ++i)
   {
     if (g_dying_void[i])
@@ -773,6 +778,7 @@ inline void attach_up(SigObj* g)
 // destroys the signal object of `g` (not the SigObj record) with its upstream signal announced as dying
 inline void destroy_signal_object(SigObj* g)
 {
+  g->dying = true;
   if (g->up)
   {
     g_dying_ups.push_back(g->up);
@@ -2311,6 +2317,28 @@ std::vector<std::vector<std::string>> read_programs(std::istream& in)
   if (progs.back().empty() && progs.size() > 1)
     progs.pop_back();
   return progs;
+}
+
+void query_all_signals()
+{
+  Interp* in = g_interp;
+  if (!in)
+    return;
+  for (auto& kv : in->G)
+  {
+    SigObj* g = kv.second;
+    if (!g || g->dying)
+      continue;
+    with_sig(*g, [](auto& s) {
+      volatile std::size_t n = s.size();
+      volatile bool e = s.empty();
+      volatile bool b = s.blocked();
+      (void)n;
+      (void)e;
+      (void)b;
+      return 0;
+    });
+  }
 }
 
 } // namespace
